@@ -370,7 +370,8 @@ pub fn run(ctx: &Ctx) -> (Outcome, String, Option<bool>) {
         }
         r
     }));
-    let rule = "Third phase, scenarios at the edge of the u128 liquidity counter: two fresh tokens, 2-6 deposits with either side anywhere in 2^0..2^120 (alone or two per block), then withdrawals of whole liquidity coins; same backing invariant, plus coins + reserve of either token never exceed what was created. Second phase, liquidity lifecycles by construction: a block of 2-4 deposits, then 3-8 blocks mixing withdrawals (40%), deposits, swaps and ordinary transactions that split and merge liquidity-token coins. First phase: generated histories of up to 24 (quick) / 40 (thorough) steps rich in deposits (24%) and withdrawals (22%, always of everything a coin holds) plus swaps, new tokens and new pools, on every genesis class. Oracle after every seal, on the real state: MEL/SYM and MEL/ERG (and ERG/SYM once TIP-902) exist with both reserves > 0; the pool tree has no entry under a key no transaction named; for every pool the sum of unspent coins in its liquidity-token denomination <= the pool's recorded liquidity. Non-trivial = history with >=1 deposit and >=1 withdrawal settled on the same pool; distinct by the sequence of pool roots.".to_string();
+    out.absorb(super::hist::run_sampled_heights(ctx, &profile(), ctx.scale(250, 2500), C16::default));
+    let rule = "Also: the first phase's kind of histories on mainnet/testnet (85%) started at a height sampled anywhere below 2 000 000 (TIP-906 barrier crossed honestly first). Third phase, scenarios at the edge of the u128 liquidity counter: two fresh tokens, 2-6 deposits with either side anywhere in 2^0..2^120 (alone or two per block), then withdrawals of whole liquidity coins; same backing invariant, plus coins + reserve of either token never exceed what was created. Second phase, liquidity lifecycles by construction: a block of 2-4 deposits, then 3-8 blocks mixing withdrawals (40%), deposits, swaps and ordinary transactions that split and merge liquidity-token coins. First phase: generated histories of up to 24 (quick) / 40 (thorough) steps rich in deposits (24%) and withdrawals (22%, always of everything a coin holds) plus swaps, new tokens and new pools, on every genesis class. Oracle after every seal, on the real state: MEL/SYM and MEL/ERG (and ERG/SYM once TIP-902) exist with both reserves > 0; the pool tree has no entry under a key no transaction named; for every pool the sum of unspent coins in its liquidity-token denomination <= the pool's recorded liquidity. Non-trivial = history with >=1 deposit and >=1 withdrawal settled on the same pool; distinct by the sequence of pool roots.".to_string();
     (out, rule, None)
 }
 
@@ -379,7 +380,7 @@ pub fn replay(case: &serde_json::Value) -> Check {
         let c: ExtremeCase = serde_json::from_value(case.clone()).map_err(|e| crate::evidence::Violation::new("replay-format", e.to_string()))?;
         return check_extreme(&c, &mut Stats::default(), 200);
     }
-    super::hist::replay_two_phase(case, &profile(), &profile2(), C16::default())
+    super::hist::replay_any(case, &profile(), &profile2(), C16::default())
 }
 
 /// The lifecycle phase: more small MEL coins, so that many withdrawals (each burns one as its fee) can be built.
